@@ -23,6 +23,7 @@ EXPLANATION = (
     "direct raise. Decides atomicity and the map discipline for every state; not errors outside the documented set.")
 EXPLANATION += (" The documented error is built as Error(identifier, self) in add_agent / remove_agent / get_agent. Premises: C08's placement predicate for SpaceWorld.add_agent / remove_agent, C03's join/leave rules for add_agent / remove_agent.")
 EXPLANATION += (' The deprecated camelCase spellings addAgent / removeAgent / getAgent forward every argument unchanged to one method of the receiver.')
+EXPLANATION += (" Premises widened: C08's index-offset rules, C03's Agent.__init__ rule; no class-level alias captures add_agent / remove_agent / get_agent.")
 ASSUMPTIONS = ["dict preserves insertion order (language fact)", "component sets are not modified while resident (C03's dimension)"]
 
 ALOC = (CORE + 'Environment', 'agents')
@@ -59,7 +60,7 @@ def run(cx: Cx):
     check_keyed_delete(cx, rem.qualname, ALOC, Attr(Sym(rem.params[0]), 'agents'), Sym(rem.params[1]), unroll=1)
     sites = cx.effects.sites_of(ALOC)
     for s in sites:
-        if s.owner_q in (add.qualname, rem.qualname):
+        if s.owned_within((add.qualname, rem.qualname)):
             continue
         v = s.ev.data.get('value')
         if s.owner_q == env.qualname + '.__init__' and s.kind == 'rebind' and isinstance(v, Fresh) and v.kind == 'dict' and not v.items:
@@ -256,9 +257,15 @@ def run(cx: Cx):
 
     from .common import include_premises
     include_premises(cx, ['C08'], 'placing an agent outside a spatial world must fail: the placement test is C08\'s',
-                     only=lambda o: o.function.endswith('.add_agent') or o.function.endswith('.remove_agent'))
+                     only=lambda o: o.function.endswith('.add_agent') or o.function.endswith('.remove_agent')
+                     or 'index-offset' in o.key or 'offset-set-after' in o.key)
     _JOIN_LEAVE = ('.add_agent', '.remove_agent', '.register_component', '.deregister_component', '.get_component', '.__getitem__',
                    '.add_component', '.remove_component')
     include_premises(cx, ['C03'], 'a present agent can always be removed and the listings follow: join/leave bookkeeping, and the '
                      'component accessors and pool operations it goes through, are C03\'s',
-                     only=lambda o: (o.function or '').endswith(_JOIN_LEAVE) or 'compare-by-identity' in o.key)
+                     only=lambda o: (o.function or '').endswith(_JOIN_LEAVE) or 'compare-by-identity' in o.key
+                     or (o.function or '').endswith('Agent.__init__'))
+    # the deprecated spellings dispatch on the receiver like the documented ones (a class-level alias of the base implementation
+    # skips the spatial worlds' overrides: no bounds test, no position)
+    from .common import check_no_static_alias
+    check_no_static_alias(cx, env.qualname, ['add_agent', 'remove_agent', 'get_agent'])
